@@ -41,19 +41,28 @@ def exhaustive_langs(depth):
     reaches / '->' / '+>' at every level."""
     names = LG.ASSET_NAMES[:depth]
     kinds = ['absent', 'none', 'over', 'ext']
-    for combo in itertools.product(kinds, repeat=depth):
+    for ci, combo in enumerate(itertools.product(kinds, repeat=depth)):
         for sib in ('ext', 'over'):
             assets = []
+            # every third combination: 'sa' is an existence step whose requirement differs from level to level
+            existence = ci % 3 == 1
             for i, (nm, k) in enumerate(zip(names, combo)):
                 steps = []
                 if k != 'absent':
                     reaches = None if k == 'none' else [LG.S('x' + nm.lower())]
+                    if existence:
+                        steps.append(LG.step('sa', 'exist', reaches=reaches, overrides=(k == 'over'),
+                                             requires=[LG.F('fa' if i % 2 else 'fb')], tags=['t' + str(i)]))
+                        steps.append(LG.step('x' + nm.lower(), 'or'))
+                        assets.append(LG.asset(nm, names[i - 1] if i else None, steps))
+                        continue
                     steps.append(LG.step('sa', 'or', reaches=reaches, overrides=(k == 'over'),
                                          ttc=LG.TTC_EXP if i % 2 else None, tags=['t' + str(i)]))
                 steps.append(LG.step('x' + nm.lower(), 'or'))
                 assets.append(LG.asset(nm, names[i - 1] if i else None, steps))
             assets.append(LG.asset('Ee', names[-2] if depth > 1 else names[0],
-                                   [LG.step('sa', 'or', reaches=[LG.S('xee')], overrides=(sib == 'over')), LG.step('xee', 'or')]))
+                                   [LG.step('sa', 'exist' if existence else 'or', reaches=[LG.S('xee')], overrides=(sib == 'over'),
+                                            requires=[LG.F('fa')] if existence else None), LG.step('xee', 'or')]))
             yield LG.lang(assets, [LG.assoc('Pp', 'Aa', 'fa', 'Aa', 'fb')])
 
 
